@@ -1,5 +1,11 @@
-"""C07 — throwing and non-throwing variants of every operation agree (T-route for both members of every
-extractable pair + correspondence of the real code for the others and for the float decisions at the guards)."""
+"""C07 — throwing and non-throwing variants of every operation agree.
+
+T-route for both members of every extractable pair (94 entries; pair theorems compare the two regenerated trees leaf by leaf; the
+3x3 Gauss-Jordan tree is proved equal to C06's hand model in Lemmas/C07GJLink.lean) + correspondence of the real code for the
+others and for the float decisions at the guards (harness/corr/c07_pairs.cpp), with obligations on what the generators REACHED
+(both outcomes per pair, the three straddle classes, every checkForZeroScaleInRow call site), a token-level source tie and
+exhaustive small-integer lattices for the duplicated Gauss-Jordan / inverse bodies, and an independent long-double predicate for
+inverse (true) of Matrix22 / Matrix33."""
 import os, re
 import lib, troute
 
